@@ -8,10 +8,16 @@ Local Open Scope N_scope.
    enc is the piece of the query string that carries them: decoding it (ParseQuery) succeeds
    and gives, for every key, exactly the list of values of the forwarded map.  The order of
    the keys and the spelling of the escapes are left open. *)
+(* "exactly": the piece carries nothing else - no empty pair (a stray '&') *)
+Definition no_empty_piece (enc : string) : bool :=
+  str_eqb enc "" || forallb (fun p => negb (str_eqb p "")) (split_on c_amp enc).
+
 Definition fwd_ok (q : values) (enc : string) : Prop :=
+  no_empty_piece enc = true /\
   exists pairs, parse_query enc = (pairs, true) /\ forall k, pvals k pairs = vals k q.
 
 Definition fwd_ok_b (q : values) (enc : string) : bool :=
+  no_empty_piece enc &&
   let '(pairs, ok) := parse_query enc in
   ok && forallb (fun k => list_eqb str_eqb (pvals k pairs) (vals k q))
                 (map fst q ++ map fst pairs)%list.
